@@ -133,7 +133,7 @@ PushVal(st, v, ts) ==
                            /\ st.i <= Len(ts) /\ IsBin(ts[st.i])
                            /\ Level(ts[st.i].o) < Level(f1.ops[2])
               st1 == IF premature THEN AddDev(st, "ReduceWithoutLookahead") ELSE st
-          IN IF e.k = "rej" THEN Done(AddDev(st1, "ZeroDivisorTraps"), "crash", v)
+          IN IF e.k = "rej" THEN Done(st1, "rej", v)      \* Var::div / Var::mod return -1
              ELSE IF e.k = "any" THEN Done(st1, "any", v)
              ELSE SetTop(st1, [f1 EXCEPT !.vals = e.vals, !.ops = e.ops, !.count = @ - 2])
 
@@ -151,7 +151,7 @@ Finish(st, ts, how) ==
   ELSE LET g  == FoldRest(f)
            s0 == IF Len(f.ops) >= Len(f.vals) THEN AddDev(st, "TrailingOperatorAccepted") ELSE st
            s1 == IF f.paren /\ how = "eol" THEN AddDev(s0, "UnclosedParenAccepted") ELSE s0
-       IN IF g.count = -1 THEN Done(AddDev(s1, "ZeroDivisorTraps"), "crash", WZero(W))
+       IN IF g.count = -1 THEN Done(s1, "rej", WZero(W))
           ELSE IF g.count = -2 THEN Done(s1, "any", WZero(W))
           ELSE LET v == g.vals[Len(g.vals)] IN
                IF Len(st.fr) = 1
@@ -172,7 +172,10 @@ MStep(st, ts) ==
      IF t.t = "num" THEN PushVal(adv, ApplyUn(f.un, t.v), ts)
      ELSE IF t.t = "lp" THEN [adv EXCEPT !.fr = Append(@, Frame0(TRUE))]
      ELSE IF IsOp(t, "-") \/ IsOp(t, "~") THEN SetTop(adv, [f EXCEPT !.un = Append(@, t.o)])
-     ELSE Done(st, "rej", WZero(W))
+     ELSE \* parse_unary_new() reports the token and fails, but run() ignores its result:
+          \* the cleared value gets the first unary operator applied and is pushed.
+          PushVal(AddDev(IF eol THEN st ELSE adv, "UnaryOperandErrorIgnored"),
+                  IF f.un[1] = "-" THEN WZero(W) ELSE WOnes(W), ts)
   ELSE IF eol THEN Finish(st, ts, "eol")
   ELSE IF t.t = "lp" THEN
      IF NeedSymbol(f.count) THEN Finish(st, ts, "pushback")          \* the x(r12) case
@@ -208,8 +211,8 @@ SameRes(a, b) == a.k = b.k /\ (a.k = "val" => a.v = b.v)
 Verdict(ts, obs) ==
   LET ref == RefEval(ts)
       imp == ImplEval(ts)
-  IN IF ref.k = "any" THEN (IF obs.k = "crash" THEN "violation" ELSE "ok")
+  IN IF ref.k = "any" THEN "ok"       \* the property is silent (shift count out of range)
      ELSE IF SameRes(obs, ref) THEN (IF SameRes(imp, ref) \/ imp.k = "any" THEN "ok" ELSE "stale")
-     ELSE IF imp.dev # {} /\ SameRes(obs, imp) THEN "dev"
+     ELSE IF imp.dev # {} /\ (SameRes(obs, imp) \/ (imp.k = "any" /\ obs.k = "val")) THEN "dev"
      ELSE "violation"
 =============================================================================
